@@ -1,3 +1,205 @@
-/- C19: property theorems (none yet). -/
+/-
+C19 — Configuration values are immutable.
+
+"Every With… method of the runtime, module and file-system configuration returns a new value and leaves
+its receiver and every configuration previously derived from it unchanged, so a base configuration can
+be reused and extended independently, also from several goroutines.  Instantiating with a configuration
+does not change it either."  Quantifier: all trees of derivations and all later uses of each node.
+
+Model: `Wz.Model.Config` (Go structs copied by value, slices as (ptr,len,cap) headers over shared backing
+arrays, `append` in place iff len+k ≤ cap, maps as pointers; any capacity growth policy).
+The per-method effect lists are REGENERATED from the source on every run (`Wz.Gen.ConfigEffects.methods`,
+by translate/facts/c19_effects: every `With…` of runtimeConfig, moduleConfig, fsConfig, sock.Config and the
+writes of Runtime.InstantiateModule to the caller's *moduleConfig).
+
+* `C19` (full strength about the model, for EVERY effect table the classifier accepts): in every history —
+  constructors, `With…` calls with any arguments on any earlier node, instantiations — the observable
+  value of every node that exists at any point is the same after any continuation.
+* `all_methods_safe`: the classifier accepts the table regenerated from today's source (`decide`; this is
+  the obligation that breaks when a `clone` stops copying a field or a method writes through a shared
+  slice/map: it is false on the pinned tree d39ba29 for `WithEnv` (F19) and `InstantiateModule` (F20), and
+  true with repo_patches/C19-fix-F19-*.diff and C19-fix-F20-*.diff applied).
+* `C19_wazero`: the two combined.
+* witnesses on the frozen as-is table of the pinned tree: `withenv_parent_rewrite_witness`,
+  `withenv_sibling_alias_witness` (F19), `instantiate_writes_config_witness` (F20).
+-/
+import Wz.Model.Config
+import Wz.Gen.ConfigEffects
+import Wz.Proofs.C19_Frame
+
 namespace Wz.C19
+open Wz.Model.Config
+
+/-! ## The general theorems (any effect table) -/
+
+/-- A call of a method whose effect list is in the safe class leaves the observable value of every
+previously existing configuration unchanged (whatever the arguments, the aliasing between existing
+configurations and the capacities are). -/
+theorem safe_effects_preserve {tbl : List Method} {st st' : State} {recv id : Nat} {name : String} {a : Args}
+    (hs : allSafe tbl = true) (hw : WF st) (h : call tbl st recv name a = some (st', id)) :
+    ∀ i, i < st.nodes.length → obs st' i = obs st i :=
+  frame_obs hw (call_frame hs hw h).1
+
+/-- Concurrency: a safe call performs no write to any heap object or configuration struct that existed
+before the call — everything it writes it has allocated itself.  (Two such calls on shared configurations
+therefore have no conflicting accesses: data-race freedom under the Go memory model follows from this
+frame property; the scheduling itself is not modelled.) -/
+theorem no_shared_writes {tbl : List Method} {st st' : State} {recv id : Nat} {name : String} {a : Args}
+    (hs : allSafe tbl = true) (hw : WF st) (h : call tbl st recv name a = some (st', id)) :
+    st'.objs.take st.objs.length = st.objs ∧ st'.nodes.take st.nodes.length = st.nodes :=
+  (call_frame hs hw h).1
+
+/-- The value returned by a call is a node of the new state. -/
+theorem call_returns_node {tbl : List Method} {st st' : State} {recv id : Nat} {name : String} {a : Args}
+    (h : call tbl st recv name a = some (st', id)) : id < st'.nodes.length := by
+  unfold call at h
+  simp only [bind, Option.bind_eq_some_iff] at h
+  obtain ⟨c, _, m, _, ps, _, p, _, h⟩ := h
+  exact execPath_id_lt h
+
+/-- "returns a new value": a safe call returns a brand-new node (the state grows by exactly that node), or —
+only on paths without any effect, e.g. `WithSysFSMount` given an `UnimplementedFS` — the receiver itself with all
+nodes unchanged. -/
+theorem call_returns_new_or_receiver {tbl : List Method} {st st' : State} {recv id : Nat} {name : String} {a : Args}
+    (hs : allSafe tbl = true) (hw : WF st) (h : call tbl st recv name a = some (st', id)) :
+    (id = st.nodes.length ∧ st'.nodes.length = st.nodes.length + 1) ∨ (id = recv ∧ st'.nodes = st.nodes) := by
+  have hf := (call_frame hs hw h).1
+  unfold call at h
+  simp only [bind, Option.bind_eq_some_iff] at h
+  obtain ⟨c, _, m, _, ps, _, p, _, h⟩ := h
+  rcases execPath_result h with ⟨_, rfl, hl⟩ | ⟨_, rfl, hl⟩
+  · right
+    refine ⟨rfl, ?_⟩
+    have := hf.2
+    rw [← hl, List.take_length] at this
+    exact this
+  · left; exact ⟨rfl, hl⟩
+
+/-- **C19** for every history: `pre` is any history from the empty state (constructors and calls, i.e. any
+derivation tree: every call may take any earlier node as receiver), `post` any continuation (later
+derivations from any node, instantiations).  Every node existing after `pre` has the same observable
+value after `post`. -/
+theorem C19 (tbl : List Method) (hs : allSafe tbl = true) (pre post : List Step) (st1 st2 : State)
+    (h1 : run tbl {} pre = some st1) (h2 : run tbl st1 post = some st2) :
+    ∀ i, i < st1.nodes.length → obs st2 i = obs st1 i := by
+  have hw1 := (run_frame hs WF_init h1).2
+  exact frame_obs hw1 (run_frame hs hw1 h2).1
+
+/-! ## The obligation over the regenerated table -/
+
+/-- Every `With…` method (and InstantiateModule) of today's source is in the safe class.
+`decide` over the finite regenerated table. -/
+theorem all_methods_safe : allSafe Wz.Gen.ConfigEffects.methods = true := by decide
+
+/-- The table is not trivially safe: it contains index writes, appends and map writes. -/
+theorem table_has_reference_writes :
+    (Wz.Gen.ConfigEffects.methods.any fun m => m.paths.any fun p => p.effs.any fun e =>
+      match e with
+      | .indexWrite .. => true
+      | _ => false) = true ∧
+    (Wz.Gen.ConfigEffects.methods.any fun m => m.paths.any fun p => p.effs.any fun e =>
+      match e with
+      | .append .. => true
+      | _ => false) = true ∧
+    (Wz.Gen.ConfigEffects.methods.any fun m => m.paths.any fun p => p.effs.any fun e =>
+      match e with
+      | .mapWrite .. => true
+      | _ => false) = true := by decide
+
+/-- **C19 for wazero's configuration methods as they are in the source today.** -/
+theorem C19_wazero (pre post : List Step) (st1 st2 : State)
+    (h1 : run Wz.Gen.ConfigEffects.methods {} pre = some st1)
+    (h2 : run Wz.Gen.ConfigEffects.methods st1 post = some st2) :
+    ∀ i, i < st1.nodes.length → obs st2 i = obs st1 i :=
+  C19 _ all_methods_safe pre post st1 st2 h1 h2
+
+/-! ## Witnesses: the as-is table of the pinned tree (frozen copy of what the extractor emits there) -/
+
+def pinnedWithEnv : Method :=
+  { recv := "moduleConfig", name := "WithEnv", delegate := none, paths := [
+      { guard := [.keyIn "environKeys" "key"], clone := .deep ["environKeys"],
+        effs := [.indexWrite "environ" ⟨"environKeys", "key", 1⟩ (.param "value")] },
+      { guard := [.keyNotIn "environKeys" "key"], clone := .deep ["environKeys"],
+        effs := [.mapWrite "environKeys" "key" "environ", .append "environ" [.param "key", .param "value"]] }] }
+
+def pinnedInstantiate : Method :=
+  { recv := "moduleConfig", name := "InstantiateModule", delegate := none, paths := [
+      { guard := [.flag "ctxHasSockConfig"], clone := .self, effs := [.assignScalar "sockConfig" (.param "sockConfig")] },
+      { guard := [.notFlag "ctxHasSockConfig"], clone := .self, effs := [] }] }
+
+def pinnedTbl : List Method := [pinnedWithEnv, pinnedInstantiate]
+
+/-- `violates tbl pre post i`: node `i` exists after `pre` and its observable value differs after `post`. -/
+def violates (tbl : List Method) (pre post : List Step) (i : Nat) : Bool :=
+  match run tbl {} pre with
+  | some st1 =>
+    match run tbl st1 post with
+    | some st2 => decide (i < st1.nodes.length) && (obs st2 i != obs st1 i)
+    | none => false
+  | none => false
+
+theorem violates_sound {tbl : List Method} {pre post : List Step} {i : Nat} (h : violates tbl pre post i = true) :
+    ∃ st1 st2, run tbl {} pre = some st1 ∧ run tbl st1 post = some st2 ∧ i < st1.nodes.length ∧ obs st2 i ≠ obs st1 i := by
+  unfold violates at h
+  split at h
+  · rename_i st1 h1
+    split at h
+    · rename_i st2 h2
+      simp only [Bool.and_eq_true, decide_eq_true_eq, bne_iff_ne, ne_eq] at h
+      exact ⟨st1, st2, h1, h2, h.1, h.2⟩
+    · cases h
+  · cases h
+
+def newModuleConfig : Step :=
+  .new "moduleConfig" [("name", .scalar ""), ("sockConfig", .scalar "nil"), ("startFunctions", .slice ["_start"] 1),
+    ("args", .slice [] 0), ("environ", .slice [] 0), ("environKeys", .map [])]
+
+def withEnv (recv : Nat) (k v : String) (cap : Nat) : Step :=
+  .call recv "WithEnv" { vals := [("key", .one k), ("value", .one v)], hints := [("environ", cap)] }
+
+/-- the classifier rejects the pinned table (both methods) -/
+theorem pinned_table_rejected :
+    methodSafe pinnedTbl pinnedWithEnv = false ∧ methodSafe pinnedTbl pinnedInstantiate = false := by decide
+
+/-- F19, parent rewrite: `p := base.WithEnv("A","1"); p.WithEnv("A","changed")` — `p` now sees A=changed. -/
+theorem withenv_parent_rewrite_witness :
+    ∃ st1 st2, run pinnedTbl {} [newModuleConfig, withEnv 0 "A" "1" 2] = some st1 ∧
+      run pinnedTbl st1 [withEnv 1 "A" "changed" 2] = some st2 ∧ 1 < st1.nodes.length ∧ obs st2 1 ≠ obs st1 1 :=
+  violates_sound (by decide)
+
+/-- F19, siblings: after a chain A,B,C (capacities 2,4,8 as Go's runtime chooses) node 3 has len 6 / cap 8;
+its children `WithEnv("D","4")` (node 4) and `WithEnv("E","5")` share the array: node 4 now reads E=5. -/
+theorem withenv_sibling_alias_witness :
+    ∃ st1 st2, run pinnedTbl {} [newModuleConfig, withEnv 0 "A" "1" 2, withEnv 1 "B" "2" 4, withEnv 2 "C" "3" 8,
+        withEnv 3 "D" "4" 8] = some st1 ∧
+      run pinnedTbl st1 [withEnv 3 "E" "5" 8] = some st2 ∧ 4 < st1.nodes.length ∧ obs st2 4 ≠ obs st1 4 :=
+  violates_sound (by decide)
+
+/-- F20: instantiating with a context that carries a sock.Config rewrites the caller's configuration. -/
+theorem instantiate_writes_config_witness :
+    ∃ st1 st2, run pinnedTbl {} [newModuleConfig] = some st1 ∧
+      run pinnedTbl st1 [.call 0 "InstantiateModule"
+        { vals := [("sockConfig", .one "sock(127.0.0.1:0)"), ("ctxHasSockConfig", .one "true")] }] = some st2 ∧
+      0 < st1.nodes.length ∧ obs st2 0 ≠ obs st1 0 :=
+  violates_sound (by decide)
+
+/-! ## Non-vacuity (tests on samples, labelled as such) -/
+
+/-- test: the hypotheses of `C19_wazero` are met by the three witness histories on today's table
+(the runs succeed), and — as the theorem says — nothing changes. -/
+example :
+    (run Wz.Gen.ConfigEffects.methods {} [newModuleConfig, withEnv 0 "A" "1" 2, withEnv 1 "B" "2" 4,
+        withEnv 2 "C" "3" 8, withEnv 3 "D" "4" 8]).isSome = true ∧
+    violates Wz.Gen.ConfigEffects.methods [newModuleConfig, withEnv 0 "A" "1" 2, withEnv 1 "B" "2" 4,
+        withEnv 2 "C" "3" 8, withEnv 3 "D" "4" 8] [withEnv 3 "E" "5" 8] 4 = false ∧
+    violates Wz.Gen.ConfigEffects.methods [newModuleConfig, withEnv 0 "A" "1" 2] [withEnv 1 "A" "changed" 2] 1 = false ∧
+    (run Wz.Gen.ConfigEffects.methods {} [newModuleConfig, withEnv 0 "A" "1" 2, withEnv 1 "A" "changed" 2,
+        .call 2 "InstantiateModule" { vals := [("sockConfig", .one "s"), ("ctxHasSockConfig", .one "true")] }]).isSome = true := by
+  decide
+
+/-- test: a state reached by a real history is well-formed and non-trivial (3 nodes, 6 heap objects) -/
+example : ∃ st, run Wz.Gen.ConfigEffects.methods {} [newModuleConfig, withEnv 0 "A" "1" 2, withEnv 1 "B" "2" 4] = some st ∧
+    st.nodes.length = 3 ∧ st.objs.length > 4 := by
+  refine ⟨_, rfl, ?_, ?_⟩ <;> decide
+
 end Wz.C19
